@@ -28,7 +28,15 @@ _DEVNULL = open(os.devnull, "w")
 
 
 def entries():
-    return [e for e in catalog.ENTRIES.values() if e["seeded"] or e["deterministic"]]
+    """Seed-accepting entry points (the subject of the first two sentences of C16) get four times the
+    share of the many small deterministic functions (third sentence)."""
+    out = []
+    for e in catalog.ENTRIES.values():
+        if e["seeded"]:
+            out.extend([e] * 4)
+        elif e["deterministic"]:
+            out.append(e)
+    return out
 
 
 # ------------------------------------------------------------------ generation
